@@ -141,3 +141,136 @@ func raceWorkerC10(args []string) int {
 	fmt.Printf("RACE-WORKLOAD adds=%d queries=%d query_errors=%d query_panics=%d mgmt_rounds=%d\n", adds, queries, qerrs, qpanics, mgmt)
 	return 0
 }
+
+func init() {
+	Workers["c10-race-cluster"] = raceWorkerCluster
+}
+
+// raceWorkerCluster: a 3-node in-process cluster (TrailingLogs=0) under the race detector: concurrent adds
+// and queries on every replica while a follower is stopped, the log is compacted, the follower returns by
+// state transfer and leadership moves. Prints a RACE-WORKLOAD summary line.
+func raceWorkerCluster(args []string) int {
+	dir := args[0]
+	seed, _ := strconv.ParseInt(args[1], 10, 64)
+	mod := func(cf *NodeCfg) { cf.TrailingLogs = 0; cf.SnapshotThreshold = 1 << 40 }
+	lc, err := bringUp(dir, 3, mod)
+	if err != nil {
+		fmt.Println("race worker: cluster start failed:", err)
+		lc.CloseAll()
+		return 3
+	}
+	var mu sync.Mutex
+	var events []string
+	var adds, queries, qerrs, qpanics int64
+	var stop int32
+	var wg sync.WaitGroup
+	wg.Add(1)
+	go func() { // writer
+		defer wg.Done()
+		r := lib.NewRand(uint64(seed))
+		for i := 0; atomic.LoadInt32(&stop) == 0; i++ {
+			ld := lc.leader()
+			if ld == nil {
+				time.Sleep(20 * time.Millisecond)
+				continue
+			}
+			k := r.Pick(1, 2, 6)
+			evs := make([][]byte, k)
+			names := make([]string, k)
+			for j := range evs {
+				names[j] = fmt.Sprintf("rc-%d-%d", i, j)
+				evs[j] = []byte(names[j])
+			}
+			if err := Call(ld, func() error { _, e := ld.N.AddBulk(evs); return e }); err == nil {
+				atomic.AddInt64(&adds, int64(k))
+				mu.Lock()
+				events = append(events, names...)
+				mu.Unlock()
+			}
+		}
+	}()
+	for g := 0; g < 3; g++ { // readers on every live replica
+		wg.Add(1)
+		go func(g int) {
+			defer wg.Done()
+			r := lib.NewRand(uint64(seed) + 50 + uint64(g))
+			for atomic.LoadInt32(&stop) == 0 {
+				mu.Lock()
+				n := len(events)
+				var ev string
+				if n > 0 {
+					ev = events[r.Intn(n)]
+				}
+				mu.Unlock()
+				ids := lc.ids(true)
+				if n < 2 || len(ids) == 0 {
+					time.Sleep(5 * time.Millisecond)
+					continue
+				}
+				lc.mu.Lock()
+				nd := lc.Nodes[ids[r.Intn(len(ids))]]
+				lc.mu.Unlock()
+				if nd == nil {
+					continue
+				}
+				err := Call(nd, func() error {
+					if r.Bool() {
+						_, e := nd.N.QueryMembership([]byte(ev))
+						return e
+					}
+					i, j := uint64(r.Intn(n)), uint64(r.Intn(n))
+					if i > j {
+						i, j = j, i
+					}
+					_, e := nd.N.QueryConsistency(i, j)
+					return e
+				})
+				atomic.AddInt64(&queries, 1)
+				if err != nil {
+					if len(err.Error()) > 6 && err.Error()[:6] == "PANIC:" {
+						atomic.AddInt64(&qpanics, 1)
+					} else {
+						atomic.AddInt64(&qerrs, 1)
+					}
+				}
+			}
+		}(g)
+	}
+	// fault plan: follower down, compaction, return by state transfer, leadership transfer
+	transfers := 0
+	time.Sleep(1500 * time.Millisecond)
+	var victim string
+	ld := lc.leader()
+	for _, id := range lc.ids(true) {
+		if ld == nil || id != ld.Cfg.ID {
+			victim = id
+		}
+	}
+	lc.mu.Lock()
+	lc.StopGuarded(victim)
+	lc.mu.Unlock()
+	time.Sleep(1500 * time.Millisecond)
+	for _, id := range lc.ids(true) {
+		lc.mu.Lock()
+		nd := lc.Nodes[id]
+		lc.mu.Unlock()
+		Call(nd, func() error { return nd.N.VerifForceSnapshot() })
+	}
+	time.Sleep(500 * time.Millisecond)
+	lc.mu.Lock()
+	_, serr := lc.Start(victim, false, func(cf *NodeCfg) { mod(cf); cf.Bootstrap = false })
+	lc.mu.Unlock()
+	if serr == nil {
+		transfers++
+	}
+	time.Sleep(2500 * time.Millisecond)
+	if ld := lc.leader(); ld != nil {
+		Call(ld, func() error { return ld.N.VerifLeaveLeadership() })
+	}
+	time.Sleep(2 * time.Second)
+	atomic.StoreInt32(&stop, 1)
+	wg.Wait()
+	lc.CloseAll()
+	fmt.Printf("RACE-WORKLOAD cluster adds=%d queries=%d query_errors=%d query_panics=%d follower_returns=%d\n", adds, queries, qerrs, qpanics, transfers)
+	return 0
+}
